@@ -17,7 +17,7 @@ package main
 //                         is stable under re-decoding and complete: a field is set iff the library's own generic parse of the
 //                         corrupted text has a (non-null) key for it — never a partly filled value; Config fails iff Value fails.
 //  stream 4 (findings)    probes for the listed known findings (case-folded keys, tags under maps / pointer slices,
-//                         embedded structs, []time.Time): known while listed and still observed.
+//                         embedded structs): known while listed and still observed.
 
 import (
 	"context"
@@ -1033,7 +1033,7 @@ type c13Case struct {
 
 func checkC13(c *Ctx) {
 	res := c.Res
-	res.Rule = "stream 1: corpus type (13 declared struct types: all integer widths, float64, bool, strings, time.Duration (plain, pointer, in slices and maps), time.Time, net.IP, " +
+	res.Rule = "stream 1: corpus type (13 declared struct types: all integer widths, float64, bool, strings, time.Duration (plain, pointer, pointer-to-pointer, in slices, maps and pointers to them), time.Time (also []time.Time), net.IP, " +
 		"[]string/[]int/[][]int, string-keyed maps incl. nested, map[string]struct{} sets, nested / pointer / slice-of structs, format-specific tags, embedded structs) x generated data " +
 		"(any subset of keys present at every depth, boundary integers, awkward strings and map keys, durations as strings or integer ns for JSON/Cue) rendered by the harness into all four formats " +
 		"with randomised concrete syntax (block/flow YAML, TOML sections / inline tables / arrays of tables, bare/quoted keys, escapes); a case is non-trivial when at least one key is present; " +
@@ -1057,6 +1057,14 @@ func checkC13(c *Ctx) {
 		}
 	}
 
+	var plain, special []*c13Type
+	for _, t := range types {
+		if t.class == "" {
+			plain = append(plain, t)
+		} else {
+			special = append(special, t)
+		}
+	}
 	n := c.scale(1500, 24000)
 	tokEvery := 6
 	if c.Tier == "thorough" {
@@ -1066,9 +1074,9 @@ func checkC13(c *Ctx) {
 		r := c.RNG.Fork()
 		var t *c13Type
 		if r.Chance(82) {
-			t = types[r.Intn(7)]
+			t = plain[r.Intn(len(plain))]
 		} else {
-			t = types[7+r.Intn(len(types)-7)]
+			t = special[r.Intn(len(special))]
 		}
 		h.agreementCase(r, t, i%tokEvery == 0)
 	}
@@ -1189,7 +1197,7 @@ func (h *c13Harness) agreementCase(r *RNG, t *c13Type, tokenSweep bool) {
 	h.res.Count(fmt.Sprintf("absent%%:%d", g.pAbsent))
 
 	// ----- model -----
-	modelled := t.class == "" || t.class == "embtagged" || t.class == "embflat" || t.class == "emb2" || t.class == "slicetime"
+	modelled := t.class == "" || t.class == "embtagged" || t.class == "embflat" || t.class == "emb2"
 	if h.c.Drv != nil {
 		for _, f := range c13Formats {
 			o := outs[f]
@@ -1379,8 +1387,6 @@ func (h *c13Harness) classify(t *c13Type, f string, cueMin bool, cf c13Case, exp
 		h.known("D33-yaml-flatten-one-level", "YAML FlattenAnonymous hoists one level only: the fields of a struct embedded in an embedded struct are not read, while JSON and Cue promote them", cf, expect, got)
 	case (t.class == "mapstruct" || t.class == "sliceptr") && !strings.HasPrefix(got, "panic"):
 		h.known("D31-tags-not-reached", "dials tags (and the duration substitution) are not applied to struct types that are map values or elements of a slice of pointers (transformer.go isStructishTypedField): the keys given by the tags are ignored / string durations fail in JSON and Cue only", cf, expect, got)
-	case t.class == "slicetime" && c13IsErr(got) && asModel:
-		h.known("D34-slice-of-time", "a []time.Time field makes every decoder fail: maybeRecursivelyMangle tests for TextUnmarshaler on the slice type, recurses into time.Time and turns the field into []struct{}", cf, expect, got)
 	default:
 		h.finding("violation", "decoded value differs from the data the document expresses", cf, expect, got, nil)
 	}
